@@ -21,12 +21,13 @@ from .npshim import shimmed
 
 
 class Obl:
-    __slots__ = ('name', 'kind', 'lhs', 'rhs', 'block', 'canary', 'scale', 'path')
+    __slots__ = ('name', 'kind', 'lhs', 'rhs', 'block', 'canary', 'scale', 'path', 'exact_uf')
 
     def __init__(self, name, kind, lhs, rhs, block=None, canary=False, scale=None):
         self.name, self.kind, self.lhs, self.rhs = name, kind, lhs, rhs
         self.block, self.canary, self.scale = block, canary, scale
         self.path = None
+        self.exact_uf = False
 
 
 def _flatten(name, a, b):
@@ -53,6 +54,9 @@ class Scenario:
         self.native_results = []
         self.use_stubs = expect_stubs and mode == 'sym'
         self.notes = []
+        # uninterpreted functions that stand for ARBITRARY data (array contents): a solver counter-model is then a
+        # genuine counter-example of the verification condition, not an artefact of abstraction
+        self.exact_uf = False
 
     # -- atoms ---------------------------------------------------------------
     def _atom(self, name, kind, lo, hi):
@@ -186,6 +190,7 @@ class Scenario:
         for nm, x, y in _flatten(name, lhs, rhs):
             if self.mode == 'sym':
                 self.obls.append(Obl(nm, kind, core.lift(x), core.lift(y), **kw))
+                self.obls[-1].exact_uf = self.exact_uf
             else:
                 self.native_results.append(_native_eval(nm, kind, x, y, kw.get('canary', False),
                                                         kw.get('scale')))
@@ -203,6 +208,7 @@ class Scenario:
         if self.mode == 'sym':
             n = cond.n if isinstance(cond, SymBool) else core.CTX.mk('true' if cond else 'false')
             o = Obl(name, 'holds', n, None, canary=canary)
+            o.exact_uf = self.exact_uf
             self.obls.append(o)
         else:
             self.native_results.append(dict(name=name, kind='holds', ok=bool(cond),
@@ -453,6 +459,12 @@ def discharge(o, hyps, pool, budget_ms=20000):
         if r['model'] and all(v is not None for v in r['model'].values()):
             base = {k: v for k, v in r['model'].items() if core.CTX.atoms[k].get('defn') is None}
             w = Point('smtmodel', base)
+            w.fn_points = r.get('fn_points') or []
+        if o.exact_uf and _has_uninterpreted(o, hyps):
+            fp = '; '.join(f"{nm}({', '.join(f'{a:g}' for a in args)}) = {val:g}" for nm, args, val in
+                           sorted((r.get('fn_points') or []), key=lambda t: (t[0], t[1])) if val is not None)
+            return dict(status='refuted', backend=r['backend'], seconds=time.time() - t0, witness=w,
+                        detail='SMT counter-model (array contents are arbitrary: the model is a concrete array): ' + fp[:900])
         if _has_uninterpreted(o, hyps):
             # the solver treats log / powers / material functions as arbitrary functions: its counter-model is
             # only a refutation if it is one for the real functions too
